@@ -18,20 +18,24 @@ pub fn run(ctx: &Ctx) {
     ctx.assume("`taskset -c <list>` restricts std::thread::available_parallelism of the veryl process, which is the worker count of cmd_test.rs (min with the number of tests)");
     ctx.assume("with one worker the order of the tests in the JSON report is the dispatch order; a different order under ≥ 2 CPUs therefore proves that ≥ 2 workers ran tests");
     ctx.assume("the backend (--backend) is fixed per project: the property quantifies over worker counts and dispatch orders, not over backends");
-    api::run(ctx);
+    // development aid: C32_ONLY=cli skips the in-process part
+    let only = std::env::var("C32_ONLY").unwrap_or_default();
+    if only != "cli" {
+        api::run(ctx);
+    }
     let total = std::thread::available_parallelism().map(|n| n.get()).unwrap_or(1) as u32;
     let opts = cli::CliOpts { thorough: !ctx.is_quick(), total_cpus: total };
     // reproducers of listed findings (hand-written projects)
     ctx.run_payloads("cli-fixed", cli::fixed_case);
-    let n = ctx.scale(30, 600);
+    let n = ctx.scale(25, 600);
     // development aid: C32_CLI_CASES=n overrides the number of projects
     let n = std::env::var("C32_CLI_CASES").ok().and_then(|s| s.parse().ok()).unwrap_or(n);
-    // each case runs the CLI 7 (thorough: 12) times; projects run in parallel, so
+    // each case runs the CLI 6 (thorough: 12) times; projects run in parallel, so
     // the CPU sets of concurrent cases overlap — as on a loaded machine
     let threads = (total as usize).min(8);
     ctx.run(
         "cli",
-        CaseCfg::cases(n).choices(6000).threads(threads).shrink_iters(6).timeout_s(2400),
+        CaseCfg::cases(n).choices(6000).threads(threads).shrink_iters(2).timeout_s(2400),
         |d| cli::case(d, &opts),
     );
     ctx.finish(
